@@ -211,3 +211,54 @@ Proof.
   - lia.
 Qed.
 End Core2.
+
+(* ---- journal_table on arbitrary physical order ---------------------------------------------- *)
+Theorem journal_table_sorted_view fuel okeys ovf nkeys fields :
+  length okeys = length ovf -> NoDup nkeys -> Forall wf_field fields ->
+  Z.of_nat fuel > len okeys + len nkeys ->
+  let osi := dataset_sort_index [okeys; ovf] in
+  let nsi := dataset_sort_index [nkeys] in
+  exists E, W (take okeys osi) (take nkeys nsi) 0 0 E /\
+    journal_table fuel okeys ovf nkeys fields =
+    Ok (map (outS osi nsi (planE E (map (kfun osi nsi fields) E))) fields).
+Proof.
+  intros Hl Hnd Hwf Hf osi nsi. unfold journal_table. fold osi nsi.
+  apply journal_core_sorted; auto.
+  - unfold osi, len. rewrite dsi2_length by exact Hl. reflexivity.
+  - apply dsi2_keys_sorted. exact Hl.
+  - apply dsi1_keys_ssorted. exact Hnd.
+  - rewrite !len_take'. unfold osi, nsi, len in *. rewrite dsi2_length by exact Hl. rewrite dsi1_length. exact Hf.
+Qed.
+
+(* every output column has as many rows as the plan: columns are aligned *)
+Lemma outS_rows osi nsi P f : wf_field f -> col_rows (outS osi nsi P f) = len P.
+Proof.
+  destruct f as [[od|oo ov] [nd|no nv]]; cbn [wf_field]; intros H; try contradiction; cbn [outS col_rows].
+  - apply len_map.
+  - rewrite len_encode_offs, len_map. lia.
+Qed.
+
+Theorem journal_columns_aligned fuel okeys ovf nkeys fields :
+  length okeys = length ovf -> NoDup nkeys -> Forall wf_field fields ->
+  Z.of_nat fuel > len okeys + len nkeys ->
+  exists cols n, journal_table fuel okeys ovf nkeys fields = Ok cols /\
+    length cols = length fields /\ Forall (fun c => col_rows c = n) cols.
+Proof.
+  intros Hl Hnd Hwf Hf. destruct (journal_table_sorted_view fuel okeys ovf nkeys fields Hl Hnd Hwf Hf) as (E & _ & Hr).
+  eexists. eexists. split; [exact Hr|]. split; [apply map_length|].
+  apply Forall_forall. intros c Hc. apply in_map_iff in Hc. destruct Hc as (f & <- & Hin).
+  apply outS_rows. rewrite Forall_forall in Hwf. apply Hwf. exact Hin.
+Qed.
+
+(* the kernel-level facts, packaged: indices *)
+Theorem journal_indices_correct oks nks fuel :
+  sorted oks -> ssorted nks -> Z.of_nat fuel > len oks + len nks ->
+  exists E, gen_indices fuel oks nks = Ok (map e_old E, map e_new E) /\
+    map e_key E = all_keys oks nks /\ Forall (entry_ok oks nks) E.
+Proof.
+  intros Hso Hsn Hf. pose proof (len_nonneg oks). pose proof (len_nonneg nks).
+  destruct (W_exists oks nks (Z.to_nat (len oks + len nks)) 0 0) as (E & HW); try lia.
+  exists E. split; [apply gen_indices_W; auto|]. split.
+  - symmetry. apply W_all_keys; auto.
+  - apply (W_entries oks nks Hso Hsn 0 0 E HW (Pre_0 oks nks)).
+Qed.
